@@ -383,6 +383,32 @@ func main() {
 			rep.Class("address-spelling")
 		}
 	}
+	// a site whose path prefix has bytes outside ASCII: clients send them percent-encoded
+	for _, second := range []string{"", "a.test:8080"} {
+		cf := "a.test:8080/caf\u00e9 {\n\theader / X-Site s0\n\tstatus 204 /\n}\n"
+		if second != "" {
+			cf += second + " {\n\theader / X-Site s1\n\tstatus 204 /\n}\n"
+		}
+		l, err := kit.Load(cf, "/nonexistent/Casketfile")
+		rep.Eval(1)
+		if err != nil {
+			rep.Violation("C01/unexpected-load-error", "a site with a non-ASCII path prefix failed to load: "+err.Error(), vcase{Casketfile: cf})
+			continue
+		}
+		other := "none"
+		if second != "" {
+			other = "s1"
+		}
+		for _, tc := range []struct{ path, want string }{{"/caf%C3%A9/menu", "s0"}, {"/caf%C3%A9", "s0"}, {"/cafe/menu", other}, {"/caf%C3%A8/menu", other}, {"/", other}} {
+			rec, pv, _ := kit.ServeReq(l.Servers[0], reqFor("a.test:8080", tc.path, 1))
+			rep.Eval(1)
+			if got := outcome(rec, pv, "a.test:8080", 1); got != tc.want {
+				rep.Violation("C01/non-ascii-path-prefix", fmt.Sprintf("site a.test:8080/caf\u00e9 (second site %q), path %s: got %s, want %s", second, tc.path, got, tc.want), vcase{cf, "a.test:8080", tc.path, 1, got, tc.want})
+			}
+		}
+		l.Close()
+		rep.Class("non-ascii-path-prefix")
+	}
 	// IPv6 literal sites: the port of the Host header is ignored for them too, and [::] is a catch-all
 	for _, tc := range []struct {
 		site  string
